@@ -21,6 +21,16 @@ H, C, HI, G, HX, CX, TR, IG, UT, UP = (
 # ------------------------------------------------------------------ seeds written by independent sub-agents (see seeded/*/meta.json)
 for _id in ("C01", "C02", "C03", "C04", "C05", "C06", "C07", "C08", "C09", "C10", "C11", "C12", "C13", "C14", "C15", "C16", "C17", "C18", "C19", "C20"):
     P(f"seed {_id}_a", _id, f"seeded/{_id}_a/patch.diff")
+    P(f"seed {_id}_b (second round)", _id, f"seeded/{_id}_b/patch.diff")
+
+# ------------------------------------------------------------------ behaviour-preserving refactorings written by independent sub-agents
+# (refactors/r*/patch.diff, each passes the 79 tests): every check must stay silent (exit 0) on every one of them
+import glob as _glob
+import os as _os
+
+_ALL = ["C%02d" % i for i in range(1, 21)]
+for _d in sorted(_glob.glob(_os.path.join(_os.path.dirname(_os.path.abspath(__file__)), "refactors", "r*"))):
+    P(f"refactoring {_os.path.basename(_d)} (behaviour preserving)", _ALL, f"refactors/{_os.path.basename(_d)}/patch.diff", "silent")
 
 # ------------------------------------------------------------------ C01
 LOOP1 = """            chunk = fd.read(size)
@@ -458,3 +468,39 @@ V("synchronous fetch in needs_update", "C20", UP, "        if not self.latest_ve
 V("notice printed from the group body", "C20", "ascmhl/cli/ascmhl.py", "def mhltool_cli():\n    pass", 'def mhltool_cli():\n    if updater.needs_update:\n        click.secho("update", fg="blue")', "R20.4")
 V("exit 1 when outdated", "C20", "ascmhl/cli/ascmhl.py", '        click.secho(f"Please update to the latest ascmhl version using `pip3 install -U ascmhl`.", fg="blue")', '        click.secho(f"Please update to the latest ascmhl version using `pip3 install -U ascmhl`.", fg="blue")\n        raise SystemExit(1)', "R20.4")
 V("daemon passed to Thread.__init__ (equivalent)", "C20", UP, "        super().__init__()\n        self.daemon = True", "        super().__init__(daemon=True)", "silent")
+
+
+# ------------------------------------------------------------------ variants added with the second-round hardening
+V("hand-rolled digest cache keyed by path (suite-blind)", "C01", H, """    hasher = new_hasher_for_hash_type(hash_format)
+    return hasher.hash_file(filepath)""", """    key = (filepath, hash_format, os.path.getsize(filepath))
+    if key not in _digest_cache:
+        _digest_cache[key] = new_hasher_for_hash_type(hash_format).hash_file(filepath)
+    return _digest_cache[key]
+
+
+_digest_cache = {}""", "R1.7")
+V("chain temporary opened with exclusive create", "C15", CX, 'file = open(temp_file_path, "wb")', 'file = open(temp_file_path, "xb")', "R15.1")
+V("manifest temporary opened with exclusive create is harmless (fresh name per run)", "C15", HX, 'file = open(temp_file_path, "wb")', 'file = open(temp_file_path, "xb")', "silent")
+V("reader strips digests", "C10", HX, 'entry = MHLHashEntry(tag, element.text, element.attrib.get("action"), hash_date)', 'entry = MHLHashEntry(tag, element.text.strip(), element.attrib.get("action"), hash_date)', "R10.1")
+V("latest generation number from the chain", ["C06", "C04"], HI, """        latest_number = 0
+        for hash_list in self.hash_lists:""", """        if self.chain is not None and self.chain.generations:
+            return self.chain.generations[-1].generation_number
+        latest_number = 0
+        for hash_list in self.hash_lists:""", "any")
+V("comparison helper: structure mismatch alone is a success", "C09", C, """        directory_hash_entry.hash_string == calculated_content_hash_string
+        and directory_hash_entry.structure_hash_string == calculated_structure_hash_string
+    ):""", """        directory_hash_entry.hash_string == calculated_content_hash_string
+    ):""", "R9.6")
+V("comparison helper: tuple comparison (equivalent)", "C09", C, """    if (
+        directory_hash_entry.hash_string == calculated_content_hash_string
+        and directory_hash_entry.structure_hash_string == calculated_structure_hash_string
+    ):""", """    if (directory_hash_entry.hash_string, directory_hash_entry.structure_hash_string) == (
+        calculated_content_hash_string,
+        calculated_structure_hash_string,
+    ):""", "silent")
+V("discovery skips folders whose absolute path starts with a dot component", "C13", HI, """            if root != history_root and ascmhl_folder_name in directories:""", """            if os.sep + "." in root:
+                continue
+            if root != history_root and ascmhl_folder_name in directories:""", "R13.5")
+V("discovery uses the last component of the walk root (harmless)", "C13", HI, """            if root != history_root and ascmhl_folder_name in directories:""", """            if root.split(os.sep)[-1] == "":
+                continue
+            if root != history_root and ascmhl_folder_name in directories:""", "silent")
